@@ -77,7 +77,10 @@ class World:
         """end the connection of cid (right after a snapshot): how in disconnect | abort | terminate"""
         k = self.up.pop(cid)
         if how == "terminate":
-            self.steps += [{"op": "terminate", "cid": cid}, {"op": "sleep", "ms": 40}]
+            # TerminateSession closes the connection asynchronously and sends nothing; the `abort` that follows makes the
+            # driver wait until the broker has unregistered the connection (and keeps the next barrier from publishing a
+            # sentinel into a session that is being torn down - a copy handed to a dying connection is unobservable)
+            self.steps += [{"op": "terminate", "cid": cid}, {"op": "sleep", "ms": 30}, {"op": "abort", "k": k}, {"op": "sleep", "ms": 100}]
         else:
             self.steps.append({"op": how, "k": k})
 
@@ -395,7 +398,8 @@ def auth(rng, sid, nscen):
         # AUTH, reason code 0x19 (re-authenticate), property length 0
         w.steps.append({"op": "raw", "k": ka, "hex": "f0021900"})
         w.up.pop("a")
-        w.steps.append({"op": "sleep", "ms": 60})
+        # the broker answers with DISCONNECT (read by the client) and closes; the barrier must not find the connection half open
+        w.steps.append({"op": "sleep", "ms": 250})
         w.snap()
         w.end("b", "disconnect")
         w.steps += [{"op": "sleep", "ms": SETTLE_MS}, {"op": "stats"}]
